@@ -2,7 +2,7 @@
 
 CFG = dict(
     pkg="c08",
-    tests=["TestC08"],
+    tests=["TestC08", "TestC08HistRace"],
     n_quick=25, n_thorough=150, shards_thorough=4, timeout_quick=900, timeout_thorough=3000,
     rule="corpus + 17 boundary families (0/5/99/100/101 candidates, in-flight sets, all results at the 10,000-byte perform-data cap so that "
          "the byte limit cuts, mixed sizes, sequence numbers crossing a multiple of 10, warm-up rounds exercising the shuffled-id memo with a "
